@@ -54,6 +54,10 @@ def scan():
     for rel, pkg in GEN_FILES.items():
         for m in FUNC_RE.finditer(read(rel)):
             rt, rn, name, num, suffix = m.groups()
+            if name[:1].islower():
+                # an UNEXPORTED helper is not a member of a public family (second harmless round, C02-h2-h4: a private
+                # `MonadChainN.bind` helper was reported as a coverage gap WITH a "concrete failing input")
+                continue
             if rt:
                 fam = '%s.%sN.%s%s%s' % (pkg, rt, name, 'N' if num else '', suffix)
                 found[fam].add(int(rn))
